@@ -22,11 +22,22 @@ C16 — property theorems (curve points, lengths and closest-parameter queries a
   T_C16_closest_linear     the closest parameter of the linear interpolant (exact projection) beats every point of every segment
   T_C16_edge               a curve edge's written points are the discretisation minus its ends; the polyline through
                            vertex 1, the written points and vertex 2 is the curve length between the two parameters
+Round 6:
+  T_C16_samples_split / T_C16_additive_samples   discretize over k+m+1 samples splits at the k-th sample; the polyline length is exactly
+                           additive there, for every sample count, curve function and distance oracle
+  T_C16_length_monotone / T_C16_prefix_le        the polyline up to a sample is at most the polyline up to a later one
+  T_C16_circle_polyline_real / T_C16_circle_length_real   (ℝ) CircleCurve: chord sum ≤ radius × parameter range, any ascending samples
+  T_C16_circle_closest_real                      (ℝ) the closest parameter of a query is its angle in the circle's frame
+  T_C16_circle_point       the modelled circle function (Rodrigues) stays on the circle
+  T_C16_closest_param_point   the parameter returned by LinearInterpolatedCurve.get_closest_param addresses the projection point:
+                           get_point(get_closest_param(q)) beats every point of every segment
+  T_C16_tie_params / _samples / _discrete        the model agrees with the guards, counts, operators regenerated from the source text
 Spline interpolation and scipy.optimize.minimize are oracles: validator checks only (see notes/C16.md).
 -/
 import CBV.Lemmas.C16
 import CBV.Lemmas.C08
 import CBV.Lemmas.C16Real
+import CBV.Lemmas.C16Param
 import CBV.Lemmas.C08Tie
 import Mathlib.Tactic.NormNum
 
@@ -651,6 +662,60 @@ theorem T_C16_tie_discrete (x : Rat) :
   refine ⟨by decide, by decide, by decide, by decide, by decide, by decide, by decide, ?_⟩
   unfold clip01
   simp [chain, cmpOp]
+
+theorem clip01_bounds (x : Rat) : 0 ≤ clip01 x ∧ clip01 x ≤ 1 := by
+  unfold clip01
+  split
+  · exact ⟨le_refl _, by norm_num⟩
+  · split
+    · exact ⟨by norm_num, le_refl _⟩
+    · constructor <;> linarith
+
+/-- The **parameter** returned by `LinearInterpolatedCurve.get_closest_param` addresses the projection point: for strictly increasing
+    knot parameters (chord-length or evenly spaced), `get_point(get_closest_param(q))` exists, is the clipped projection of `q` on the
+    chosen segment, and is at least as close to `q` as every point of every segment of the polyline.  (The return statement
+    `params[i] + ratios[i] * (params[i+1] - params[i])` and scipy's `interp1d` are inverse to each other on a segment: `lerp_at_segment`.) -/
+theorem T_C16_closest_param_point (ts : List Rat) (ps : List V) (q : V) (hl : ts.length = ps.length)
+    (hs : ts.Pairwise (· < ·)) (hlen : 2 ≤ ps.length) :
+    ∃ P, lerp ts ps (closestParamL ts ps q) = some P ∧
+      ∀ (j : Nat) (hj : j < (segments ps).length) (lam : Rat), 0 ≤ lam → lam ≤ 1 →
+        dist2 P q ≤ dist2 (lerpV (segments ps)[j].1 (segments ps)[j].2 lam) q := by
+  obtain ⟨hi, hmin⟩ := T_C16_closest_linear ps q hlen
+  have hseglen : (segments ps).length = ps.length - 1 := by
+    simp only [segments, List.length_zip, List.length_tail]; omega
+  have hi2 : closestSeg ps q + 1 < ps.length := by omega
+  have hi1 : closestSeg ps q + 1 < ts.length := by omega
+  obtain ⟨i, hidef⟩ : ∃ i, i = closestSeg ps q := ⟨_, rfl⟩
+  rw [← hidef] at hi hi2 hi1 hmin
+  have hρ := clip01_bounds (Vec.dot (Vec.sub q ps[i]) (Vec.sub ps[i + 1] ps[i]) /
+      (if 0 < Vec.nsq (Vec.sub ps[i + 1] ps[i]) then Vec.nsq (Vec.sub ps[i + 1] ps[i]) else 1))
+  have hpar : closestParamL ts ps q = ts[i] + segRatio ps[i] ps[i + 1] q * (ts[i + 1] - ts[i]) := by
+    unfold closestParamL
+    simp only [← hidef]
+    rw [List.getD_eq_getElem?_getD, List.getD_eq_getElem?_getD, List.getD_eq_getElem?_getD, List.getD_eq_getElem?_getD,
+      List.getElem?_eq_getElem (by omega), List.getElem?_eq_getElem hi1, List.getElem?_eq_getElem (by omega),
+      List.getElem?_eq_getElem hi2]
+    simp
+  refine ⟨lerpV ps[i] ps[i + 1] (segRatio ps[i] ps[i + 1] q), ?_, ?_⟩
+  · rw [hpar]
+    exact lerp_at_segment ts ps hl hs i hi1 hi2 _ hρ.1 hρ.2
+  · intro j hj lam h0 h1
+    refine le_trans (le_of_eq ?_) (hmin j hj lam h0 h1)
+    have hget : ((segments ps).map (fun s => segDist2 s.1 s.2 q)).getD i 0
+        = segDist2 (segments ps)[i].1 (segments ps)[i].2 q := by
+      simp [List.getD_eq_getElem?_getD, hi]
+    rw [hget]
+    have hseg : (segments ps)[i] = (ps[i], ps[i + 1]) := by
+      simp [segments, List.getElem_zip, List.getElem_tail]
+    rw [hseg]
+    rfl
+
+example : ([0, 1 / 3, 1] : List Rat).Pairwise (· < ·) ∧
+    lerp [0, 1 / 3, 1] [⟨0, 0, 0⟩, ⟨0, 1, 0⟩, ⟨2, 1, 0⟩]
+      (closestParamL [0, 1 / 3, 1] [⟨0, 0, 0⟩, ⟨0, 1, 0⟩, ⟨2, 1, 0⟩] ⟨1, 3, 0⟩) = some ⟨1, 1, 0⟩ := by
+  constructor
+  · simp [List.pairwise_cons]; norm_num
+  · decide +kernel
 
 /-! ### curve edges -/
 
